@@ -99,6 +99,17 @@ def run(ctx, spec):
             ff = f.astype(np.float64)
             refs.append(cog_ref(ff if thr == 0 else np.where(ff - thr * ff.max() < 0, 0, ff)))
         ctx.close("cog_stack_vs_reference", gs, np.array(refs).T, tolr * max(nx, ny), "centre_of_gravity:nd_path_reference", dict(wit, threshold=thr, depth=depth))
+        # an absolute floor (min_threshold) lying between the relative thresholds of frames of different brightness
+        if thr > 0 and depth >= 2:
+            peaks = sorted(float(f.astype(np.float64).max()) for f in frames)
+            mt = min(thr * 0.5 * (peaks[0] + peaks[-1]), 0.8 * peaks[0])      # above the faint frames' relative threshold, below their peak
+            gm = pure_call(ctx, "centre_of_gravity", C.centre_of_gravity, stack, thr, mt)
+            refm = []
+            for f in frames:
+                ff = f.astype(np.float64)
+                t_ = max(thr * ff.max(), mt)
+                refm.append(cog_ref(np.where(ff - t_ < 0, 0, ff)))
+            ctx.close("cog_stack_min_threshold", gm, np.array(refm).T, tolr * max(nx, ny), "centre_of_gravity:nd_path_reference:min_threshold", dict(wit, threshold=thr, min_threshold=mt, depth=depth))
         ctx.count("stack_vs_frame_groups")
         per = np.array([C.centre_of_gravity(f, thr) for f in frames]).T
         ctx.close("cog_stack_vs_frame", gs, per, tolr * max(nx, ny),
@@ -178,6 +189,22 @@ def run(ctx, spec):
                   "correlation_centroid:displacement:%s:%s:pad%s" % (par, sq, "1" if pad == 1 else ">1"), w6)
         z1 = C.correlation_centroid(im[None].copy(), ref.copy(), cthr, 1)
         ctx.close("corr_padding_independent", got3, z1, 1e-9 * max(nx, ny), "correlation_centroid:padding_dependent:%s" % par, w6)
+        # with padding >= 2 the correlation is linear: content anywhere in the frame, displaced by more than half the frame
+        if pad >= 2 and min(ny, nx) >= 10:
+            bh, bw = int(rng.integers(1, 3)), int(rng.integers(1, 3))
+            blob = rng.random((bh, bw)) + 0.1
+            r_far, i_far = np.zeros((ny, nx)), np.zeros((ny, nx))
+            ry, rx = int(rng.integers(0, 2)), int(rng.integers(0, 2))
+            iy, ix = ny - bh - int(rng.integers(0, 2)), nx - bw - int(rng.integers(0, 2))
+            if rng.random() < 0.5:
+                (ry, rx), (iy, ix) = (iy, ix), (ry, rx)
+            r_far[ry:ry + bh, rx:rx + bw] = blob
+            i_far[iy:iy + bh, ix:ix + bw] = blob
+            gf = C.correlation_centroid(i_far[None].copy(), r_far.copy(), cthr, pad)
+            wf = dict(w6, shift=(ix - rx, iy - ry))
+            ctx.case("correlation_centroid_far", key=(ny, nx, pad, ix - rx, iy - ry, cthr), nontrivial=True, sample=wf)
+            ctx.close("corr_large_displacement", gf[:, 0], np.array([nx // 2 + ix - rx, ny // 2 + iy - ry], float), 1e-9 * max(nx, ny) * pad,
+                      "correlation_centroid:large_displacement:padded", wf)
         # scale invariance and stack handling
         ctx.close("corr_scale", C.correlation_centroid(im[None] * cr, ref.copy(), cthr, pad), got3, 1e-9 * max(nx, ny), "correlation_centroid:scale_invariance", w6)
         ctx.close("corr_scale_ref", C.correlation_centroid(im[None].copy(), ref * cr, cthr, pad), got3, 1e-9 * max(nx, ny), "correlation_centroid:scale_invariance:reference", w6)
